@@ -77,4 +77,40 @@ def codecOf (C : Newick.Codec) : NewickCodec :=
 /-- the codec the driver runs: C01's model with the Go-like float codec -/
 def c01Go : NewickCodec := codecOf Newick.goCodec
 
+/- ## the `gotree reformat` glue (cmd/reformat*.go) as a function of the flags -/
+
+/-- the trees received before the first error record, with their identifiers -/
+def goodOf : List Rec → List (Nat × T)
+  | [] => []
+  | r :: rs => match r.out with
+    | .ok t => (r.id, t) :: goodOf rs
+    | .err => []
+
+/-- is there an error record -/
+def failedOf : List Rec → Bool
+  | [] => false
+  | r :: rs => match r.out with
+    | .ok _ => failedOf rs
+    | .err => true
+
+/-- output format of `gotree reformat <newick|nexus|phyloxml>` -/
+inductive OutFmt where
+  | newick | nexus | phyloxml
+  deriving DecidableEq, Repr
+
+/-- `gotree reformat <out> [--translate] -f <in> -i doc [-o file]`: the records of `ReadMultiTrees` go to
+    the writer; returns (exit status is 0, text written to the output).
+    * newick (reformatnewick.go): each tree is written as it arrives; the first error record stops the
+      command with a non-zero status, the trees before it stay written;
+    * nexus / phyloxml (WriteNexus / WritePhyloXML): the writer returns the first error record's error
+      and nothing at all is written;
+    * `--translate` only exists for nexus; `-o` only chooses where the same text goes. -/
+def reformatGlue (E : Env) (out : OutFmt) (translate : Bool) (recs : List Rec) : Bool × Txt :=
+  let good := goodOf recs
+  let failed := failedOf recs
+  match out with
+  | .newick => (!failed, Px.joinT (fun t => E.C.write t ++ ['\n']) (good.map (·.2)))
+  | .nexus => if failed then (false, []) else (true, writeNexus E.C translate good)
+  | .phyloxml => if failed then (false, []) else (true, Px.render E.N (good.map (·.2)))
+
 end Gotree.C13
